@@ -20,7 +20,20 @@
 //     3 rplus    E[d] = E[a] + T[b]          8 settan      T[d] = <dof extra words>
 //     4 mul_assign E[d] *= E[a]              9 ode         E[d] = do_step(E[a]; v = T[b]); extras: stepper, h
 //    10 loop: repeat the next `d` entries `a` times
-// Checkpoint entries: `k r coeffs…` = contents of E[r] after k executed primitive ops.
+//    11 lift     L[d] = E[a].lift_so3() / lift_se3()      (SO2, SE2: lifted registers L hold SO3 / SE3 elements)
+//    12 project  E[d] = L[a].project_so2() / project_se2()
+//    13 initial content of L[d] (extras: its coefficients) — a header extension, NOT an executed op
+// Step lines of the new ops:  hist_lift G prec g | q      hist_project G prec q | g
+// Checkpoint entries: `k r coeffs…` = contents of E[r] after k executed primitive ops; r >= 100: lifted
+// register L[r-100] (coefficients of the companion type).
+//
+// Program families: random / chains / fan-in / odeint as before (their random stream is untouched), plus,
+// for the groups with lifts and from a separate stream, (s) special-point scripts — registers at the
+// constructors' special points (half turn: SO2(pi), SO2(-pi), SO2(0,-1), SO2(-0,-1), SO2(complex(-2,0)),
+// pi -+ 10^U(-12,-3), odd multiples of pi, quarter*quarter, half*identity, exp(pi), identity += pi) followed by
+// lift / lift∘project / project, (l) random programs with lift/project in the op mix and special points
+// in the registers, (h) chains that END at a half turn ((G(pi/N))^N by *=, x*g, +=, odeint steps) followed by
+// lift, lift∘project, project, (g) projections next to the singularity of the yaw (informational).
 //
 // Modes:  ./hist <nprog> <maxlen> <chainlen>   generation (VERIF_SEED)
 //         ./hist eval  < step request lines    re-evaluate single ops
@@ -232,6 +245,29 @@ template<class S>
 struct HasLift<smooth::SE2<S>> : std::true_type
 {};
 
+// companion type H of a group with lifts; groups without: H = G (registers unused)
+template<class G>
+struct Lifted
+{
+  using H = G;
+  static H lift(const G & g) { return g; }
+  static G project(const H & h) { return h; }
+};
+template<class S>
+struct Lifted<smooth::SO2<S>>
+{
+  using H = smooth::SO3<S>;
+  static H lift(const smooth::SO2<S> & g) { return g.lift_so3(); }
+  static smooth::SO2<S> project(const H & h) { return h.project_so2(); }
+};
+template<class S>
+struct Lifted<smooth::SE2<S>>
+{
+  using H = smooth::SE3<S>;
+  static H lift(const smooth::SE2<S> & g) { return g.lift_se3(); }
+  static smooth::SE2<S> project(const H & h) { return h.project_se2(); }
+};
+
 template<class S>
 smooth::SO2<S> liftproj(const smooth::SO2<S> & g)
 {
@@ -329,7 +365,7 @@ struct OpRec
   std::vector<double> extra;  // settan: tangent; ode: stepper, h (values exactly representable in S)
 };
 
-constexpr int NE = 6, NT = 4;
+constexpr int NE = 6, NT = 4, NL = 3;
 
 template<class G>
 struct Machine
@@ -339,9 +375,14 @@ struct Machine
   static constexpr int Rep = G::RepSize;
   static constexpr int Dof = G::Dof;
 
+  using H = typename Lifted<G>::H;
+  static constexpr int LRep = HasLift<G>::value ? int(H::RepSize) : 0;
+
   G E[NE];
   Tangent T[NT];
+  H L[NL] = {H::Identity(), H::Identity(), H::Identity()};
   long W[NE] = {0, 0, 0, 0, 0, 0};
+  long WL[NL] = {0, 0, 0};
   std::string gname = Gen<G>::name();
 
   template<class D>
@@ -354,7 +395,7 @@ struct Machine
 
   static bool supported(int code)
   {
-    if (code == 7) return HasLift<G>::value;
+    if (code == 7 || code == 11 || code == 12 || code == 13) return HasLift<G>::value;
     if (code == 9) return WITH_ODE != 0;
     return code >= 0 && code <= 9;
   }
@@ -371,6 +412,8 @@ struct Machine
     case 6: return W[o.a] + 1;
     case 7: return W[o.a] + 1;
     case 9: return W[o.a] + 1;
+    case 11: return W[o.a] + 1;
+    case 12: return WL[o.a] + 1;
     default: return 0;
     }
   }
@@ -434,12 +477,39 @@ struct Machine
       E[o.d]    = r;
 #endif
     } break;
+    case 11: {
+      if constexpr (HasLift<G>::value) {
+        if (want_line) line = "hist_lift" + head + wv(E[o.a].coeffs());
+        const H r = Lifted<G>::lift(E[o.a]);
+        L[o.d]    = r;
+        WL[o.d]   = wnew;
+        if (want_line) line += " |" + wv(L[o.d].coeffs());
+      }
+      return line;
+    }
+    case 12: {
+      if constexpr (HasLift<G>::value) {
+        if (want_line) line = "hist_project" + head + wv(L[o.a].coeffs());
+        const G r = Lifted<G>::project(L[o.a]);
+        E[o.d]    = r;
+      }
+    } break;
+    case 13: {
+      if constexpr (HasLift<G>::value) {
+        for (int i = 0; i < LRep; ++i) L[o.d].coeffs()(i) = S(o.extra[i]);
+        WL[o.d] = 0;
+      }
+      return "";
+    }
     default: break;
     }
     W[o.d] = wnew;
     if (want_line) line += " |" + wv(E[o.d].coeffs());
     return line;
   }
+
+  // number of extra words of an op entry
+  static int n_extra(int code) { return code == 8 ? Dof : code == 9 ? 2 : code == 13 ? LRep : 0; }
 
   bool reg_ok(int d, double bound) const
   {
@@ -460,7 +530,8 @@ struct Machine
 
 static const char * op_name(int code)
 {
-  static const char * n[] = {"compose", "inverse", "exp", "rplus", "mul_assign", "plus_assign", "cast", "liftproj", "settan", "ode", "loop"};
+  static const char * n[] = {"compose", "inverse", "exp", "rplus", "mul_assign", "plus_assign", "cast", "liftproj", "settan", "ode", "loop",
+    "lift", "project", "setlift"};
   return n[code];
 }
 
@@ -491,9 +562,33 @@ struct Runner
     for (int i = 0; i < NT; ++i) init_words += M::wv(m.T[i]);
   }
 
+  // header extension: the current lifted registers as code-13 entries (call right after start())
+  void prologue(const M & m)
+  {
+    if constexpr (HasLift<G>::value) {
+      for (int i = 0; i < NL; ++i) {
+        OpRec o;
+        o.code = 13;
+        o.d    = i;
+        for (int j = 0; j < M::LRep; ++j) o.extra.push_back(double(m.L[i].coeffs()(j)));
+        ops.push_back(o);
+      }
+    }
+  }
+
   void checkpoint(const M & m, int r)
   {
     ck_words += hexword<S>(S(k)) + hexword<S>(S(r)) + M::wv(m.E[r].coeffs());
+  }
+
+  void checkpoint_op(const M & m, const OpRec & o)
+  {
+    if (o.code == 8 || o.code == 13) return;
+    if (o.code == 11) {
+      if constexpr (HasLift<G>::value) ck_words += hexword<S>(S(k)) + hexword<S>(S(100 + o.d)) + M::wv(m.L[o.d].coeffs());
+      return;
+    }
+    checkpoint(m, o.d);
   }
 
   static std::string op_words(const OpRec & o)
@@ -519,7 +614,7 @@ struct Runner
     const std::string line = m.apply(o, emit);
     ++k;
     if (emit && !line.empty()) std::fprintf(f, "%s # %s k=%ld %s\n", line.c_str(), tagbase.c_str(), k, op_name(o.code));
-    if (ck && o.code != 8) checkpoint(m, o.d);
+    if (ck) checkpoint_op(m, o);
   }
 };
 
@@ -540,11 +635,15 @@ void execute(FILE * f, Machine<G> & m, const std::vector<OpRec> & ops, const std
   R.ops = ops;
   long total = 0;
   for (size_t i = 0; i < ops.size(); ++i) {
-    if (ops[i].code == 10) { total += long(ops[i].d) * long(ops[i].a); i += ops[i].d; } else ++total;
+    if (ops[i].code == 10) { total += long(ops[i].d) * long(ops[i].a); i += ops[i].d; } else if (ops[i].code != 13) ++total;
   }
   const bool dense = total <= 400;
   for (size_t i = 0; i < ops.size(); ++i) {
     const OpRec & o = ops[i];
+    if (o.code == 13) {
+      m.apply(o, false);  // initial lifted register: not an executed op
+      continue;
+    }
     if (o.code == 10) {
       const int len = o.d;
       const long cnt = o.a;
@@ -555,8 +654,7 @@ void execute(FILE * f, Machine<G> & m, const std::vector<OpRec> & ops, const std
         }
       i += len;
     } else {
-      const bool mark = dense || chain_mark(R.k + 1, total);
-      R.step(m, o, mark, mark);
+      R.step(m, o, true, true);  // ops outside loops are few: always emitted and checkpointed
     }
   }
   R.trailer(m, shape);
@@ -571,6 +669,77 @@ struct Generator
   using Tangent = typename G::Tangent;
   FILE * f;
   Rng & r;
+  bool liftmix = false;  // new families (separate random stream): lift/project in the op mix, special points
+
+  using H = typename Lifted<G>::H;
+  static constexpr int N_SPECIAL = 16;
+
+  // distance to the half turn: 10^U(-12,-3) (double), 10^U(-6,-2) (float)
+  double near_eps() { return std::is_same_v<S, double> ? r.logu(1e-12, 1e-3) : r.logu(1e-6, 1e-2); }
+
+  // SO2 elements at the constructors' special points (all are constructor outputs)
+  smooth::SO2<S> so2_special(int i)
+  {
+    using R2 = smooth::SO2<S>;
+    switch (i) {
+    case 0: return R2(S(M_PI));
+    case 1: return R2(S(-M_PI));
+    case 2: return R2(S(0), S(-1));
+    case 3: return R2(S(-0.0), S(-1));
+    case 4: return R2(std::complex<S>(S(-2), S(0)));
+    case 5: return R2(S(M_PI - near_eps()));
+    case 6: return R2(S(-(M_PI - near_eps())));
+    case 7: return R2(S(M_PI + near_eps()));
+    case 8: return R2(std::complex<S>(S(-1), S(r.sign() * near_eps())));
+    case 9: return R2(S(r.sign() * near_eps()), S(-1));
+    case 10: return R2(S(3 * M_PI));
+    case 11: return R2(S(-5 * M_PI));
+    case 12: return R2(std::nextafter(S(M_PI), S(4)));
+    case 13: return R2(std::nextafter(S(M_PI), S(0)));
+    case 14: return R2(S(M_PI - 1e-4 * r.uni(0.5, 2.0)));
+    default: return R2(S(M_PI / 2));  // quarter turn
+    }
+  }
+
+  G special(int i)
+  {
+    if constexpr (std::is_same_v<G, smooth::SO2<S>>) {
+      return so2_special(i);
+    } else if constexpr (std::is_same_v<G, smooth::SE2<S>>) {
+      const double tm = r.below(3) == 0 ? 0.0 : 3.0;
+      return G(so2_special(i), Eigen::Matrix<S, 2, 1>(S(r.uni(-tm, tm)), S(r.uni(-tm, tm))));
+    } else {
+      return G::Identity();
+    }
+  }
+
+  // SO3 / SE3 constructor outputs for the lifted registers: planar at / next to the half turn, planar generic,
+  // non-planar
+  H lifted_special(int i)
+  {
+    if constexpr (HasLift<G>::value) {
+      using R3 = smooth::SO3<S>;
+      R3 q;
+      switch (i) {
+      case 0: q = R3::rot_z(S(M_PI)); break;
+      case 1: q = R3(Eigen::Quaternion<S>(S(0), S(0), S(0), S(1))); break;                       // w = 0 exactly
+      case 2: q = R3::rot_z(S(M_PI - near_eps())); break;
+      case 3: q = R3::rot_z(S(-(M_PI - near_eps()))); break;
+      case 4: q = R3(Eigen::Quaternion<S>(S(near_eps()), S(0), S(0), S(r.sign()))); break;       // normalised by the constructor
+      case 5: q = R3::rot_z(S(r.uni(-7, 7))); break;
+      case 6: q = R3::exp(gen_dir3<S>(r) * S(r.uni(0.1, 3.0))); break;                            // non-planar
+      case 7: q = R3::rot_z(S(r.uni(-3, 3))) * R3::rot_y(S(r.uni(-1.2, 1.2))) * R3::rot_x(S(r.uni(-3, 3))); break;
+      default: q = R3::rot_z(S(M_PI)) * R3::rot_x(S(r.uni(-1.2, 1.2))); break;                    // yaw pi, rolled
+      }
+      if constexpr (std::is_same_v<G, smooth::SO2<S>>) {
+        return q;
+      } else {
+        return H(q, Eigen::Matrix<S, 3, 1>(S(r.uni(-3, 3)), S(r.uni(-3, 3)), S(r.uni(-3, 3))));
+      }
+    } else {
+      return H::Identity();
+    }
+  }
 
   Tangent tan(int nchain = 0)
   {
@@ -606,6 +775,17 @@ struct Generator
         Eigen::Matrix<S, 3, 1>(S(r.uni(-3, 3)), S(r.uni(-3, 3)), S(r.uni(-3, 3))));
     for (int i = 0; i < NT; ++i) m.T[i] = tan(nchain);
     for (int i = 0; i < NE; ++i) m.W[i] = 0;
+    if constexpr (HasLift<G>::value) {
+      if (liftmix) {
+        // two registers at special points, lifted registers: one at / next to the half turn, one planar, one not
+        m.E[1 + r.below(NE - 1)] = special(r.below(N_SPECIAL));
+        m.E[1 + r.below(NE - 1)] = special(r.below(N_SPECIAL));
+        m.L[0] = lifted_special(r.below(5));
+        m.L[1] = lifted_special(5 + r.below(2));
+        m.L[2] = lifted_special(6 + r.below(3));
+        for (int i = 0; i < NL; ++i) m.WL[i] = 0;
+      }
+    }
   }
 
   OpRec draw(const M & m, long k)
@@ -613,7 +793,8 @@ struct Generator
     OpRec o;
     // op mix
     static const int mix[] = {0, 0, 0, 0, 1, 1, 2, 2, 3, 3, 3, 4, 4, 5, 5, 5, 6, 7, 8, 9, 9, 0, 3, 4};
-    do { o.code = mix[r.below(24)]; } while (!M::supported(o.code));
+    static const int mix2[] = {0, 0, 0, 1, 1, 2, 3, 3, 4, 5, 5, 6, 7, 7, 8, 9, 11, 11, 11, 11, 12, 12, 12, 0};
+    do { o.code = (liftmix ? mix2 : mix)[r.below(24)]; } while (!M::supported(o.code));
     // main line: the register with the largest history
     int main = 0;
     for (int i = 1; i < NE; ++i)
@@ -649,6 +830,8 @@ struct Generator
       o.extra.push_back(double(r.below(N_STEPPERS)));
       o.extra.push_back(double(S(hs[r.below(6)] * r.uni(0.5, 1.0))));
     } break;
+    case 11: o.d = r.below(NL); break;
+    case 12: o.a = r.below(NL); break;
     }
     (void)k;
     return o;
@@ -660,6 +843,7 @@ struct Generator
     init(m);
     Runner<G> R{f, "p" + std::to_string(id)};
     R.start(m);
+    if (liftmix) R.prologue(m);
     const double bound = std::is_same_v<S, double> ? 1e6 : 1e4;
     for (long k = 1; k <= len; ++k) {
       bool done = false;
@@ -668,11 +852,14 @@ struct Generator
         if (o.code != 8 && m.weight_after(o) > k) continue;
         M save = m;
         const std::string line = m.apply(o, true);
-        if (o.code != 8 && !m.reg_ok(o.d, bound)) { m = save; continue; }
+        // magnitude guard (exact result below 1e6); lifts and projections are bounded in exact arithmetic,
+        // a non-finite result of theirs is a failure to be reported, not a reason to redraw
+        const bool bounded_op = o.code == 7 || o.code == 11 || o.code == 12;
+        if (o.code != 8 && !bounded_op && !m.reg_ok(o.d, bound)) { m = save; continue; }
         ++R.k;
         R.ops.push_back(o);
         if (!line.empty()) std::fprintf(f, "%s # %s k=%ld %s\n", line.c_str(), R.tagbase.c_str(), R.k, op_name(o.code));
-        if (o.code != 8) R.checkpoint(m, o.d);
+        R.checkpoint_op(m, o);
         done = true;
       }
       if (!done) {
@@ -687,7 +874,182 @@ struct Generator
         R.checkpoint(m, o.d);
       }
     }
-    R.trailer(m, "random");
+    R.trailer(m, liftmix ? "liftmix" : "random");
+  }
+
+  // ---- special-point scripts (groups with lifts): every op emitted and checkpointed
+  static OpRec mkop(int code, int d, int a, int b)
+  {
+    OpRec o;
+    o.code = code; o.d = d; o.a = a; o.b = b;
+    return o;
+  }
+
+  std::vector<OpRec> lifted_prologue(const M & m)
+  {
+    std::vector<OpRec> ops;
+    if constexpr (HasLift<G>::value) {
+      for (int i = 0; i < NL; ++i) {
+        OpRec o = mkop(13, i, 0, 0);
+        for (int j = 0; j < M::LRep; ++j) o.extra.push_back(double(m.L[i].coeffs()(j)));
+        ops.push_back(o);
+      }
+    }
+    return ops;
+  }
+
+  Tangent rot_tangent(double angle)
+  {
+    Tangent a = Tangent::Zero();
+    a(M::Dof - 1) = S(angle);
+    return a;
+  }
+
+  void scripts(int * counter)
+  {
+    if constexpr (HasLift<G>::value) {
+      // (1) every special point: lift it, round-trip it, project the lift, and the same after a trivial history
+      for (int i = 0; i < N_SPECIAL; ++i) {
+        M m;
+        init(m);
+        m.E[0] = special(i);
+        m.E[1] = G::Identity();
+        m.L[0] = lifted_special(r.below(9));
+        auto ops = lifted_prologue(m);
+        ops.push_back(mkop(11, 0, 0, 0));   // L0 = lift(E0)
+        ops.push_back(mkop(7, 2, 0, 0));    // E2 = liftproj(E0)
+        ops.push_back(mkop(12, 3, 0, 0));   // E3 = project(L0)
+        ops.push_back(mkop(0, 4, 0, 1));    // E4 = E0 * identity
+        ops.push_back(mkop(11, 1, 4, 0));   // L1 = lift(E4)
+        ops.push_back(mkop(1, 5, 0, 0));    // E5 = E0^-1
+        ops.push_back(mkop(11, 2, 5, 0));   // L2 = lift(E5)
+        ops.push_back(mkop(6, 4, 3, 0));    // E4 = cast(E3)
+        ops.push_back(mkop(11, 1, 4, 0));   // L1 = lift(E4)
+        const std::string shape = "special:point" + std::to_string(i);
+        execute<G>(f, m, ops, "x" + std::to_string((*counter)++), shape.c_str());
+      }
+      // (2) half turns reached by short histories
+      for (int v = 0; v < 6; ++v) {
+        M m;
+        init(m);
+        m.E[0] = G::Identity();
+        m.E[1] = special(15);                    // quarter turn
+        m.T[0] = rot_tangent(M_PI);
+        m.T[1] = rot_tangent(M_PI / 2);
+        m.T[2] = rot_tangent(-M_PI);
+        auto ops = lifted_prologue(m);
+        const char * shape = "";
+        switch (v) {
+        case 0: ops.push_back(mkop(0, 2, 1, 1)); shape = "special:quarter*quarter"; break;                                  // E2 = q*q
+        case 1: ops.push_back(mkop(0, 2, 0, 0)); ops.push_back(mkop(4, 2, 1, 0)); ops.push_back(mkop(4, 2, 1, 0));
+          shape = "special:id*=quarter*=quarter"; break;
+        case 2: ops.push_back(mkop(2, 2, 0, 0)); shape = "special:exp(pi)"; break;                                        // E2 = exp(pi)
+        case 3: ops.push_back(mkop(0, 2, 0, 0)); ops.push_back(mkop(5, 2, 1, 0)); ops.push_back(mkop(5, 2, 1, 0));
+          shape = "special:id+=quarter+=quarter"; break;
+        case 4: ops.push_back(mkop(3, 2, 1, 1)); shape = "special:quarter+quarter"; break;                                // E2 = q + pi/2
+        default: ops.push_back(mkop(2, 2, 2, 0)); shape = "special:exp(-pi)"; break;
+        }
+        ops.push_back(mkop(11, 0, 2, 0));   // L0 = lift(E2)
+        ops.push_back(mkop(7, 3, 2, 0));    // E3 = liftproj(E2)
+        ops.push_back(mkop(12, 4, 0, 0));   // E4 = project(L0)
+        ops.push_back(mkop(11, 1, 4, 0));   // L1 = lift(E4)
+        execute<G>(f, m, ops, "x" + std::to_string((*counter)++), shape);
+      }
+      // (3) projections of the lifted special points (planar at the half turn, planar generic, non-planar)
+      for (int i = 0; i < 9; ++i) {
+        M m;
+        init(m);
+        m.L[0] = lifted_special(i);
+        m.L[1] = lifted_special(r.below(9));
+        auto ops = lifted_prologue(m);
+        ops.push_back(mkop(12, 0, 0, 0));   // E0 = project(L0)
+        ops.push_back(mkop(11, 2, 0, 0));   // L2 = lift(E0)
+        ops.push_back(mkop(12, 1, 2, 0));   // E1 = project(L2)
+        ops.push_back(mkop(12, 2, 1, 0));   // E2 = project(L1)
+        ops.push_back(mkop(0, 3, 0, 2));    // E3 = E0 * E2
+        ops.push_back(mkop(11, 0, 3, 0));   // L0 = lift(E3)
+        const std::string shape = "special:project" + std::to_string(i);
+        execute<G>(f, m, ops, "x" + std::to_string((*counter)++), shape.c_str());
+      }
+    }
+  }
+
+  // chains that END at a half turn, then lift / lift∘project / project
+  void halfturn(int id, int kind, long n)
+  {
+    if constexpr (HasLift<G>::value) {
+      M m;
+      init(m, int(n));
+      const double sgn = r.sign();
+      // the step: a constructor output with heading pi/n
+      G g;
+      if constexpr (std::is_same_v<G, smooth::SO2<S>>) {
+        g = G(S(sgn * M_PI / double(n)));
+      } else {
+        g = G(smooth::SO2<S>(S(sgn * M_PI / double(n))),
+          Eigen::Matrix<S, 2, 1>(S(r.uni(-1, 1) / double(n)), S(r.uni(-1, 1) / double(n))));
+      }
+      m.E[0] = G::Identity();
+      m.E[1] = g;
+      Tangent a = Tangent::Zero();
+      a(M::Dof - 1) = S(sgn * M_PI / double(n));
+      if constexpr (std::is_same_v<G, smooth::SE2<S>>) {
+        a(0) = S(r.uni(-1, 1) / double(n));
+        a(1) = S(r.uni(-1, 1) / double(n));
+      }
+      m.T[0] = a;
+      auto ops = lifted_prologue(m);
+      const char * shape = "";
+      switch (kind) {
+      case 0: ops.push_back(mkop(10, 1, int(n), 0)); ops.push_back(mkop(4, 0, 1, 0)); shape = "halfturn:x*=g"; break;
+      case 1: ops.push_back(mkop(10, 1, int(n), 0)); ops.push_back(mkop(0, 0, 0, 1)); shape = "halfturn:x=x*g"; break;
+      case 2: ops.push_back(mkop(10, 1, int(n), 0)); ops.push_back(mkop(5, 0, 0, 0)); shape = "halfturn:x+=a"; break;
+      case 3: ops.push_back(mkop(10, 1, int(n), 0)); ops.push_back(mkop(0, 0, 1, 0)); shape = "halfturn:x=g*x"; break;
+#if WITH_ODE
+      default: {
+        // integrate a constant body velocity up to heading pi in n fixed steps
+        const double h = double(S(r.uni(0.001, 0.1)));
+        Tangent v      = Tangent::Zero();
+        v(M::Dof - 1)  = S(sgn * M_PI / (double(n) * h));
+        if constexpr (std::is_same_v<G, smooth::SE2<S>>) { v(0) = S(r.uni(-1, 1)); v(1) = S(r.uni(-1, 1)); }
+        m.T[0]  = v;
+        OpRec o = mkop(9, 0, 0, 0);
+        o.extra = {double(r.below(N_STEPPERS)), h};
+        ops     = lifted_prologue(m);
+        ops.push_back(mkop(10, 1, int(n), 0));
+        ops.push_back(o);
+        shape = "halfturn:ode_step";
+      } break;
+#else
+      default: ops.push_back(mkop(10, 1, int(n), 0)); ops.push_back(mkop(3, 0, 0, 0)); shape = "halfturn:x=x+a"; break;
+#endif
+      }
+      ops.push_back(mkop(11, 0, 0, 0));   // L0 = lift(E0)
+      ops.push_back(mkop(7, 2, 0, 0));    // E2 = liftproj(E0)
+      ops.push_back(mkop(12, 3, 0, 0));   // E3 = project(L0)
+      execute<G>(f, m, ops, "h" + std::to_string(id), shape);
+    }
+  }
+
+  // projections next to the singularity of the yaw (pitch -> +-90 deg): informational
+  void gimbal(int id)
+  {
+    if constexpr (HasLift<G>::value) {
+      using R3 = smooth::SO3<S>;
+      M m;
+      init(m);
+      const double e = std::is_same_v<S, double> ? r.logu(1e-9, 1e-2) : r.logu(1e-4, 1e-2);
+      const R3 q     = R3::rot_z(S(r.uni(-3, 3))) * R3::rot_y(S(r.sign() * (M_PI / 2 - e))) * R3::rot_x(S(r.uni(-3, 3)));
+      if constexpr (std::is_same_v<G, smooth::SO2<S>>) {
+        m.L[0] = q;
+      } else {
+        m.L[0] = H(q, Eigen::Matrix<S, 3, 1>(S(r.uni(-3, 3)), S(r.uni(-3, 3)), S(r.uni(-3, 3))));
+      }
+      auto ops = lifted_prologue(m);
+      ops.push_back(mkop(12, 0, 0, 0));
+      ops.push_back(mkop(11, 1, 0, 0));
+      execute<G>(f, m, ops, "g" + std::to_string(id), "gimbal:project");
+    }
   }
 
   // homogeneous chains, encoded as one loop
@@ -811,9 +1173,12 @@ struct GenVisitor
   Rng & r;
   Params p;
   int * counter;
+  Rng * r2 = nullptr;  // separate stream of the lift / half-turn families
+  int * counter2 = nullptr;
   template<class G>
   void group()
   {
+    lift_families<G>();
     Generator<G> g{f, r};
     // random programs, lengths stratified: 1..5, 6..20, 21..60, 61..maxlen
     for (int i = 0; i < p.nprog; ++i) {
@@ -848,6 +1213,47 @@ struct GenVisitor
     g.max_ode_steps = p.chainlen >= 10000 ? 10000 : 1000;
     g.ode_runs((*counter)++);
 #endif
+  }
+
+  // groups with lifts: special-point scripts, random programs with lift/project, chains ending at a half turn
+  template<class G>
+  void lift_families()
+  {
+    if constexpr (HasLift<G>::value) {
+      if (!r2 || !counter2) return;
+      int & c2 = *counter2;
+      Generator<G> g{f, *r2, true};
+      g.scripts(&c2);
+      const int nmix = std::max(4, p.nprog / 2);
+      for (int i = 0; i < nmix; ++i) {
+        int len;
+        switch (i % 4) {
+        case 0: len = 1 + r2->below(5); break;
+        case 1: len = 6 + r2->below(15); break;
+        case 2: len = 21 + r2->below(40); break;
+        default: len = 61 + r2->below(std::max(1, p.maxlen - 60)); break;
+        }
+        g.random_program(c2++, std::min(len, p.maxlen));
+      }
+#if WITH_ODE
+      const int nkinds = 5;
+#else
+      const int nkinds = 5;
+#endif
+      // lengths: chainlen, chainlen/10, chainlen/100 and a few short ones
+      const long lens[] = {p.chainlen, std::max<long>(10, p.chainlen / 10), std::max<long>(10, p.chainlen / 100), 2, 7, 64};
+      const int nh = p.chainlen >= 100000 ? 6 : 5;
+      for (int c = 0; c < nh; ++c) {
+        long n = lens[c % 6];
+#if WITH_ODE
+        if (n > 10000) n = 10000;
+#endif
+        g.halfturn(c2++, (c + r2->below(nkinds)) % nkinds, n);
+      }
+      // one more of every kind at a moderate length
+      for (int kind = 0; kind < nkinds; ++kind) g.halfturn(c2++, kind, 100 + r2->below(900));
+      for (int i = 0; i < 3; ++i) g.gimbal(c2++);
+    }
   }
 };
 
@@ -908,7 +1314,7 @@ struct EvalVisitor
         OpRec q;
         q.code = int(x[off]); q.d = int(x[off + 1]); q.a = int(x[off + 2]); q.b = int(x[off + 3]);
         off += 4;
-        const int nx = q.code == 8 ? Dof : q.code == 9 ? 2 : 0;
+        const int nx = M::n_extra(q.code);
         if (off + nx > x.size()) return;
         for (int j = 0; j < nx; ++j) q.extra.push_back(double(x[off + j]));
         off += nx;
@@ -950,6 +1356,13 @@ struct EvalVisitor
       m.E[0] = elem(0); o.code = 6; o.d = 2; o.a = 0;
     } else if (op == "hist_liftproj" && x.size() == size_t(Rep) && M::supported(7)) {
       m.E[0] = elem(0); o.code = 7; o.d = 2; o.a = 0;
+    } else if (op == "hist_lift" && x.size() == size_t(Rep) && M::supported(11)) {
+      m.E[0] = elem(0); o.code = 11; o.d = 0; o.a = 0;
+    } else if (op == "hist_project" && M::supported(12) && x.size() == size_t(M::LRep)) {
+      if constexpr (HasLift<G>::value) {
+        for (int i = 0; i < M::LRep; ++i) m.L[0].coeffs()(i) = x[i];
+      }
+      o.code = 12; o.d = 2; o.a = 0;
     } else if (op == "hist_ode" && x.size() == size_t(2 + Rep + Dof) && M::supported(9)) {
       m.E[0] = elem(2); m.T[0] = tang(2 + Rep); o.code = 9; o.d = 2; o.a = 0; o.b = 0;
       o.extra = {double(x[0]), double(x[1])};
@@ -1005,9 +1418,10 @@ int main(int argc, char ** argv)
   p.chainlen = argc > 3 ? std::atol(argv[3]) : 1000;
   p.nchain   = argc > 4 ? std::atoi(argv[4]) : 3;
   Rng r(seed_from_env() * 1000 + 150 + FAMILY);
-  int counter = FAMILY * 100000;
-  catalogue<double>(GenVisitor<double>{stdout, r, p, &counter});
-  catalogue<float>(GenVisitor<float>{stdout, r, p, &counter});
+  Rng r2(seed_from_env() * 1000 + 650 + FAMILY);
+  int counter = FAMILY * 100000, counter2 = FAMILY * 100000 + 50000;
+  catalogue<double>(GenVisitor<double>{stdout, r, p, &counter, &r2, &counter2});
+  catalogue<float>(GenVisitor<float>{stdout, r, p, &counter, &r2, &counter2});
   return 0;
 }
 #endif
